@@ -26,7 +26,8 @@ PROPS = ["NoEarlyApply", "NoEarlyEnqueue"]
 
 # fault environment of Align.tla switched off (see checks/c02_faults.py for the arm that switches it on)
 NOFAULT = dict(MaxCancel=0, MaxHFail=0, HonourCtx=False, FaultFrom="@{0}", Dev_CtxAwareWait=False, Dev_SwallowFlushError=False,
-               Dev_ReportWithoutCancel=False, Dev_IgnoreBarrierFlushError=False)
+               Dev_ReportWithoutCancel=False, Dev_IgnoreBarrierFlushError=False, Dev_SwallowEventFlushError=False,
+               Dev_SwallowWatermarkFlushError=False)
 
 
 def K(**kw):
